@@ -255,6 +255,10 @@ type Sim struct {
 	Corrupt func(out []byte, arg int) []byte
 	// Identify names the calling goroutine for lock-wait identities (set by the harness).
 	Identify func() string
+	// SortLockers makes the scheduler look at lockers in the order of their names instead of their creation order.
+	// For harnesses that rename lockers canonically because creation order is not a function of the seed (pools of
+	// multiplexers that a cluster client creates in Go map order). Off by default.
+	SortLockers bool
 }
 
 // Locker is a sync.Locker whose contended (or, with Always, every) acquisition is granted by the scheduler.
@@ -568,7 +572,12 @@ func (s *Sim) enabled() []Event {
 		}})
 	}
 	s.mu.Lock()
-	for _, l := range s.lockers {
+	lockers := s.lockers
+	if s.SortLockers {
+		lockers = append([]*Locker(nil), s.lockers...)
+		sort.SliceStable(lockers, func(i, j int) bool { return lockers[i].Name < lockers[j].Name })
+	}
+	for _, l := range lockers {
 		l := l
 		if l.held || len(l.waiters) == 0 {
 			continue
